@@ -366,6 +366,7 @@ pub enum Val {
 }
 
 impl Val {
+    #[allow(dead_code)]
     pub fn parse(shape: &Shape, s: &str) -> Option<Val> {
         let t = parse_toks(s)?;
         if t.len() != 1 {
